@@ -130,6 +130,13 @@ class Engine(Interp, InterpExpr, InterpComp, InterpStmt, InterpCall, InterpBuilt
     def bi_everything(self, args, kw, line):
         return ('array', '')
 
+    def bi_everything_but(self, args, kw, line):
+        """everything_but('F:state:', 'F:supvisors:', ...): any heap array may change except those whose name starts with
+        one of the given prefixes (frames of call-outs that are only known not to touch a few fields)"""
+        if not all(isinstance(a, str) for a in args):
+            raise Unsupported('everything_but expects literal array-name prefixes')
+        return ('array_except', tuple(args))
+
     def bi_contents_where(self, args, kw, line):
         """contents_where(lambda r: <Bool over an object/collection value r of class/kind K>, K)"""
         return ('pred', args[0], args[1] if len(args) > 1 else None)
@@ -161,6 +168,8 @@ class Engine(Interp, InterpExpr, InterpComp, InterpStmt, InterpCall, InterpBuilt
                 return 'all'
             refs, preds = [], []
             for it in items:
+                if it[0] == 'array_except' and not any(name.startswith(p) for p in it[1]):
+                    return 'all'
                 if it[0] == 'array' and name.startswith(it[1]):
                     return 'all'
                 if it[0] == 'field' and name.startswith(f'F:{it[2]}:'):
@@ -202,15 +211,32 @@ class Engine(Interp, InterpExpr, InterpComp, InterpStmt, InterpCall, InterpBuilt
                     ev = ExcV(exc_cls, (self.fresh_value('exc_code', INT), self.opaque_str()))
                     bindings['exc'] = ev
                     for cl in con.exc.get(exc_cls, []):
-                        self.run.assume(self.eval_clause(cl, con.module, bindings))
+                        t = self.eval_callee_clause(cl, con.module, bindings)
+                        if t is not None:
+                            self.run.assume(t)
                     raise PyRaise(ev, line)
         if rty == ANY:
             raise Unsupported(f'contract {con.target}: return type unknown (add returns=)')
         result = self.fresh_value('ret_' + fi.name, rty)
         bindings['result'] = result
         for cl in con.post:
-            self.run.assume(self.eval_clause(cl, con.module, bindings))
+            t = self.eval_callee_clause(cl, con.module, bindings)
+            if t is not None:
+                self.run.assume(t)
         return result
+
+    def eval_callee_clause(self, cl, module, bindings):
+        """post / exc clause of a callee, assumed at a call site.  Clauses speaking about the ghost effect log
+        (no_effect, count_effects, effect_at, effects) are relative to the callee's own entry and cannot be read against
+        the caller's log: they are not assumed (sound: less is assumed); the callee's own `effect=` entry is what the
+        caller sees."""
+        self.callee_clause = getattr(self, 'callee_clause', 0) + 1
+        try:
+            return self.eval_clause(cl, module, bindings)
+        except EffectsInCalleeClause:
+            return None
+        finally:
+            self.callee_clause -= 1
 
     def call_ext_contract(self, con, args, kwargs, line):
         self.externals_used.add(con.target)
